@@ -321,6 +321,44 @@ def edit_in_place(obj, tree) -> int:
     return n
 
 
+def edit_siblings(obj, tree) -> int:
+    """every SECOND child of a list-valued slot (and of their descendants' list slots) gets its second probe values: two parts
+    of the same class inside one composite are then configured differently, as `Box(0.05) + Box(2.0)` is — each must come
+    back with its own settings"""
+    sp = specs()[tree[0]]
+    n = 0
+    kids = {}
+    for slot, key, sub in tree[1]:
+        kids.setdefault(slot, []).append((key, sub))
+    for sl in sp["slots"]:
+        have = children_of(obj, sl)
+        for j, ((_, child), (_, sub)) in enumerate(zip(have, kids.get(sl["name"], []))):
+            if type(child).__name__ != sub[0]:
+                continue
+            if sl["shape"] == "list" and j % 2 == 1:
+                n += _set_alt(child, sub)
+            else:
+                n += edit_siblings(child, sub)
+    return n
+
+
+def _set_alt(obj, tree) -> int:
+    """the second probe value for every plain setting of ONE object (constructor parameters kept as attributes included: an
+    operation's step size is what its `to_dict` reads)"""
+    g = gc()
+    sp = specs()[tree[0]]
+    n = 0
+    for s in sp["settings"]:
+        if s.get("special") or s["sentinel"] is g.Unknown or s.get("alt", g.Unknown) is g.Unknown or not s.get("attr") or s["on_ctx"]:
+            continue
+        try:
+            setattr(obj, s["attr"], copy.deepcopy(s["alt"]))
+            n += 1
+        except Exception:  # noqa: BLE001
+            pass
+    return n
+
+
 def real_roundtrip(tree, path, mut, values: str = "sentinel") -> dict:
     import quansino.mc  # noqa: F401
     from ase.io.jsonio import decode, encode
@@ -330,7 +368,9 @@ def real_roundtrip(tree, path, mut, values: str = "sentinel") -> dict:
     sp = specs()[tree[0]]
     with warnings.catch_warnings():
         warnings.simplefilter("ignore")
-        obj = make(tree, "sentinel" if values == "edited" else values)
+        obj = make(tree, "sentinel" if values in ("edited", "siblings") else values)
+        if values == "siblings":
+            edit_siblings(obj, tree)
         if values == "edited":
             encode(obj.to_dict())           # serialized once (as a restart observer does at step 0) …
             edit_in_place(obj, tree)        # … then reconfigured in place
@@ -393,9 +433,24 @@ class RoundTrip(common.Suite):
             trees = [tree_for(sp, rng, 1, 0), tree_for(sp, rng, 1, 1)]
             if sp["slots"]:
                 trees += [tree_for(sp, rng, d, v) for d in (2, 3) for v in range(nrand)]
+            # two parts of the SAME class in one list slot (`Box(a) + Box(b)`): each must come back with its own settings
+            for t in list(trees):
+                for sl in sp["slots"]:
+                    if sl["shape"] != "list":
+                        continue
+                    mine = [ch for ch in t[1] if ch[0] == sl["name"]]
+                    if mine:
+                        twin = [t[0], [*[ch for ch in t[1] if ch[0] != sl["name"]], mine[0], copy.deepcopy(mine[0])]]
+                        c = emit(twin, [], ["none"], "siblings")
+                        if c:
+                            out.append(c)
             for t in trees:
-                for values in ("sentinel", "falsy", "foreign", "edited"):
+                for values in ("sentinel", "falsy", "foreign", "edited", "siblings"):
                     if values == "foreign" and not any(foreign_override(S[n]) for n in {node_at(t, p)[0] for p in all_paths(t)}):
+                        continue
+                    if values == "siblings" and not any(
+                            sum(1 for ch in node_at(t, p)[1] if ch[0] == sl["name"]) >= 2
+                            for p in all_paths(t) for sl in S[node_at(t, p)[0]]["slots"] if sl["shape"] == "list"):
                         continue
                     c = emit(t, [], ["none"], values)
                     if c:
@@ -511,7 +566,7 @@ class RoundTrip(common.Suite):
         sp = specs().get(case["tree"][0], {})
         depth = max((len(p) for p in all_paths(case["tree"])), default=0)
         o = obs.get("outcome", "exception").split()[:2]
-        return f"{sp.get('kind', '?')}:depth{depth}:{case['mut'][0]}{'@inner' if case['path'] else ''}{'/' + case['values'] if case.get('values') in ('falsy', 'foreign', 'edited') else ''}:{' '.join(o[:2] if o and o[0] == 'err' else o[:1])}"
+        return f"{sp.get('kind', '?')}:depth{depth}:{case['mut'][0]}{'@inner' if case['path'] else ''}{'/' + case['values'] if case.get('values') in ('falsy', 'foreign', 'edited', 'siblings') else ''}:{' '.join(o[:2] if o and o[0] == 'err' else o[:1])}"
 
 
 # --------------------------------------------------------------------------- import-first
